@@ -7,7 +7,7 @@ EXTENDS Coin, Json, IOUtils
 
 Depth == atoi(IOEnv.GEN_DEPTH)
 Seeds == {1, 2}
-Datas == {1, 2}
+Datas == {1, 2, 3}         \* ids; 3 is the all-zero (default) digest: the hash of nothing, or an absent commitment
 Nonces == {1, 2, 3}          \* ids; the harness maps them to boundary 64-bit values
 Ops == {[op |-> "reseed", a |-> d, b |-> 0] : d \in Datas}
        \cup {[op |-> "draw", a |-> e, b |-> 0] : e \in {1, 2, 3}}                \* a = extension degree
